@@ -289,7 +289,7 @@ Qed.
 
 Lemma okf_okt2 t : okf fs t = true -> okt2 tb t = true.
 Proof.
-  unfold okf, okt2. rewrite andb_true_iff. intros [Ho Hn]. rewrite (okd_okt t Ho), is_fl_funname. exact Hn.
+  unfold okf, okt2. rewrite andb_true_iff. intros [Ho Hn]. rewrite (okt_okt0 t (okd_okt t Ho)), is_fl_funname. exact Hn.
 Qed.
 Lemma okf_okb2 t : okf fs t = true -> okb2 stb (btok_of t) = true.
 Proof.
@@ -334,19 +334,29 @@ Qed.
 Lemma sim_lift hs b : Forall2 (sim hs) b (map (lift hs) (map btok_of b)).
 Proof. induction b as [|t r IH]; cbn; constructor; [repeat split|assumption]. Qed.
 
+Lemma okd_tx t : okd t = true -> tx t = true.
+Proof. unfold okd. rewrite !andb_true_iff. tauto. Qed.
+Lemma body_tx k n b : flookup fs k = Some (FObj n b) -> forallb tx b = true.
+Proof.
+  intros E. pose proof (Hwf_each _ (flookup_In _ _ _ E)) as Hf. unfold wf_fdef in Hf. cbn [fname fbody] in Hf.
+  rewrite !andb_true_iff in Hf. destruct Hf as [[_ Hb] _].
+  apply (forallb_impl (okf fs) tx); [|assumption]. intros x Hx. unfold okf in Hx. apply andb_true_iff in Hx. destruct Hx as [Hx _]. now apply okd_tx.
+Qed.
+Lemma tx_set_w_hd w l : forallb tx l = true -> forallb tx (set_w_hd w l) = true.
+Proof. destruct l; cbn; auto. Qed.
+
 Lemma corr2_tok d ne hs t h
-  (IH : forall ne' hs' ts' hs'l, (forall s, in_noexp s ne' = mem s hs') -> forallb (okt2 tb) ts' = true ->
+  (IH : forall ne' hs' ts' hs'l, (forall s, in_noexp s ne' = mem s hs') -> forallb (okt2 tb) ts' = true -> forallb tx ts' = true ->
         Forall2 (sim hs') ts' hs'l ->
         match d with O => True | S d' =>
           map sp (flat_map (E tb d' ne') ts') = map sph (flat_map (ES stb d') hs'l) end) :
-  (forall s, in_noexp s ne = mem s hs) -> okt2 tb t = true -> sim hs t h ->
+  (forall s, in_noexp s ne = mem s hs) -> okt2 tb t = true -> tx t = true -> sim hs t h ->
   map sp (E tb d ne t) = map sph (ES stb d h).
 Proof.
-  intros Hne Hot (Hk & Ht & Hh). rewrite E_eq, ES_eq. rewrite Hk, Ht, Hh.
+  intros Hne Hot Hx (Hk & Ht & Hh). rewrite E_eq, ES_eq. rewrite Hk, Ht, Hh.
   change (tkind_eqb (tk t) KId) with (is_id t).
   unfold okt2 in Hot. apply andb_true_iff in Hot. destruct Hot as [Hot Hnfl]. apply negb_true_iff in Hnfl.
   destruct (is_id t) eqn:Hid; cbn [negb]; [|unfold sp, sph; cbn; now rewrite Hk, Ht].
-  assert (Hx : tx t = true) by (unfold okt in Hot; apply andb_true_iff in Hot; tauto).
   rewrite Hx. cbn [negb orb]. rewrite Hne.
   destruct (mem (tt t) hs) eqn:Hm; [unfold sp, sph; cbn; now rewrite Hk, Ht|].
   rewrite get_mtable2, slookup2.
@@ -362,17 +372,19 @@ Proof.
     unfold mem. cbn [existsb]. now rewrite String.eqb_sym.
   - destruct (Hobj2 _ _ (eq_trans (get_mtable2 fs (tt t)) (f_equal (option_map macro_of_fdef) Ef))) as [_ Hb].
     apply okt2_set_w_hd. exact (Hb eq_refl).
+  - apply tx_set_w_hd, tx_set_w_hd. eapply body_tx, Ef.
   - apply sim_set_w. apply sim_set_w_l. apply sim_lift.
 Qed.
 
 Lemma corr2 d : forall ne hs ts hsl,
-  (forall s, in_noexp s ne = mem s hs) -> forallb (okt2 tb) ts = true -> Forall2 (sim hs) ts hsl ->
+  (forall s, in_noexp s ne = mem s hs) -> forallb (okt2 tb) ts = true -> forallb tx ts = true -> Forall2 (sim hs) ts hsl ->
   map sp (flat_map (E tb d ne) ts) = map sph (flat_map (ES stb d) hsl).
 Proof.
-  induction d as [|d IHd]; intros ne hs ts hsl Hne Hok Hsim; induction Hsim as [|t h ts hsl Hth Hr IHr];
-    try reflexivity; cbn [forallb] in Hok; apply andb_true_iff in Hok; destruct Hok as [Hot Hor];
-    cbn [flat_map]; rewrite !map_app, (IHr Hor); f_equal; apply (corr2_tok _ ne hs); try assumption;
-    intros ne' hs' ts' hs'l H1 H2 H3; try exact I; now apply (IHd ne' hs').
+  induction d as [|d IHd]; intros ne hs ts hsl Hne Hok Htx Hsim; induction Hsim as [|t h ts hsl Hth Hr IHr];
+    try reflexivity; cbn [forallb] in Hok, Htx; apply andb_true_iff in Hok; destruct Hok as [Hot Hor];
+    apply andb_true_iff in Htx; destruct Htx as [Hxt Hxr];
+    cbn [flat_map]; rewrite !map_app, (IHr Hor Hxr); f_equal; apply (corr2_tok _ ne hs); try assumption;
+    intros ne' hs' ts' hs'l H1 H2 H3 H4; try exact I; now apply (IHd ne' hs').
 Qed.
 
 (* ---------- the source list ---------- *)
@@ -415,7 +427,7 @@ Qed.
 
 Lemma arg_okt2 t : arg_tok fs t = true -> okt2 tb t = true.
 Proof.
-  intros Ha. destruct (arg_tok_facts t Ha) as (Ho & _ & Hm). unfold okt2. rewrite (okd_okt t Ho), is_fl_funname.
+  intros Ha. destruct (arg_tok_facts t Ha) as (Ho & _ & Hm). unfold okt2. rewrite (okt_okt0 t (okd_okt t Ho)), is_fl_funname.
   destruct (is_id t) eqn:Hid; [|reflexivity]. unfold is_funname. now rewrite (Hm eq_refl).
 Qed.
 
@@ -444,13 +456,29 @@ Proof.
   induction l as [|t r IH]; intros H; [reflexivity|]. cbn [forallb] in H. apply andb_true_iff in H. destruct H as [Ht Hr].
   unfold src_tok in Ht. rewrite andb_true_iff, negb_true_iff in Ht. destruct Ht as [Hf Hd].
   cbn [wfd]. unfold is_def in Hd. rewrite Hd.
-  pose proof (okf_okt2 t Hf) as Ho. unfold okt2, okt in Ho. rewrite !andb_true_iff in Ho.
-  destruct Ho as [[Hx _] Hn]. rewrite Hx, Hn. now apply IH.
+  pose proof (okf_okt2 t Hf) as Ho. unfold okt2 in Ho. rewrite !andb_true_iff in Ho.
+  destruct Ho as [_ Hn]. unfold okf in Hf. apply andb_true_iff in Hf. destruct Hf as [Hokd _].
+  rewrite (okd_tx t Hokd), Hn. now apply IH.
 Qed.
 
 Lemma sm_okt2 ps al body :
   forallb (okt2 tb) body = true -> Forall (fun a => forallb (okt2 tb) a = true) al ->
   forallb (okt2 tb) (sm ps al body) = true.
+Proof.
+  intros Hb Hal. unfold sm. rewrite forallb_forall. intros x Hx. apply in_flat_map in Hx.
+  destruct Hx as (t & Ht & Hx). rewrite forallb_forall in Hb.
+  destruct (index_of (tt t) ps 0) as [i|].
+  - assert (Hi : i < List.length al \/ List.length al <= i) by lia.
+    destruct Hi as [Hi|Hi]; [|rewrite nth_overflow in Hx by assumption; contradiction].
+    rewrite Forall_forall in Hal. specialize (Hal _ (nth_In al [] Hi)). rewrite forallb_forall in Hal.
+    destruct (nth i al []) as [|y r] eqn:En; [contradiction|]. cbn [set_w_hd] in Hx.
+    destruct Hx as [<-|Hx]; [|apply Hal; now right].
+    specialize (Hal y (or_introl eq_refl)). exact Hal.
+  - destruct Hx as [<-|[]]. now apply Hb.
+Qed.
+
+Lemma sm_tx ps al body :
+  forallb tx body = true -> Forall (fun a => forallb tx a = true) al -> forallb tx (sm ps al body) = true.
 Proof.
   intros Hb Hal. unfold sm. rewrite forallb_forall. intros x Hx. apply in_flat_map in Hx.
   destruct Hx as (t & Ht & Hx). rewrite forallb_forall in Hb.
@@ -534,7 +562,7 @@ Definition sitem_out (d : nat) (i : sitem) : list htok :=
       match flookup fs (tt t) with
       | Some (FFun n ps b) =>
           flat_map (ES stb d)
-            (hset_w (tw t) (hsadd [tt t] (subst_out (combine ps (map (map hl0) (a :: map snd more))) (map btok_of b))))
+            (hset_w (tw t) (hsadd [tt t] (subst_out (fun a => a) (combine ps (map (map hl0) (a :: map snd more))) (map btok_of b))))
       | _ => []
       end
   end.
@@ -566,10 +594,10 @@ Qed.
 (* the tokens that come out of subst for an invocation all carry the hide set [name] after hsadd *)
 Lemma call_all_hs name w ps hargs b :
   forallb (okf fs) b = true -> Forall (fun a => forall x, In x a -> hh x = [] /\ okh x = true /\ is_flh stb x = false) hargs ->
-  all_hs stb [name] (hset_w w (hsadd [name] (subst_out (combine ps hargs) (map btok_of b)))).
+  all_hs stb [name] (hset_w w (hsadd [name] (subst_out (fun a => a) (combine ps hargs) (map btok_of b)))).
 Proof.
   intros Hb Hargs.
-  assert (Hall : forall y, In y (hsadd [name] (subst_out (combine ps hargs) (map btok_of b))) ->
+  assert (Hall : forall y, In y (hsadd [name] (subst_out (fun a => a) (combine ps hargs) (map btok_of b))) ->
                            hh y = [name] /\ okh y = true /\ is_flh stb y = false).
   { intros y Hy. unfold hsadd in Hy. apply in_map_iff in Hy. destruct Hy as (z & <- & Hz). cbn [hh hk ht].
     assert (Hz' : hh z = [] /\ okh z = true /\ is_flh stb z = false).
@@ -585,7 +613,7 @@ Proof.
         unfold okf in Ht. rewrite andb_true_iff, negb_true_iff in Ht. destruct Ht as [Ho Hn].
         split; [now apply okd_okh0|]. change (is_flh stb (lift [] (btok_of t))) with (is_flb stb (btok_of t)). now rewrite is_flb_funname. }
     destruct Hz' as (H1 & H2 & H3). rewrite H1. repeat split; assumption. }
-  intros x Hx. destruct (hsadd [name] (subst_out (combine ps hargs) (map btok_of b))) as [|y r] eqn:E; cbn [hset_w] in Hx; [contradiction|].
+  intros x Hx. destruct (hsadd [name] (subst_out (fun a => a) (combine ps hargs) (map btok_of b))) as [|y r] eqn:E; cbn [hset_w] in Hx; [contradiction|].
   destruct Hx as [<-|Hx]; [|apply Hall; now right]. destruct (Hall y (or_introl eq_refl)) as (H1 & H2 & H3). repeat split; assumption.
 Qed.
 
@@ -595,7 +623,7 @@ Proof. apply slookup_In. Qed.
 Lemma subst_out_no_pm ap b :
   (forall t, In t b -> String.eqb (bt t) "" = false) ->
   (forall a, In a (map snd ap) -> forall x, In x a -> String.eqb (ht x) "" = false) ->
-  filter (fun t => negb (is_pm t)) (subst_out ap b) = subst_out ap b.
+  filter (fun t => negb (is_pm t)) (subst_out (fun a => a) ap b) = subst_out (fun a => a) ap b.
 Proof.
   intros Hb Ha. apply forallb_filter_id. rewrite forallb_forall. intros x Hx.
   assert (Hne : String.eqb (ht x) "" = false).
@@ -640,7 +668,7 @@ Proof.
     set (hargs := map (map hl0) al). set (ap := combine ps hargs). set (body := map btok_of b).
     assert (Hlook : slookup stb (tt t) = Some (SFun ps false body)) by (rewrite slookup2, Hfl; reflexivity).
     (* the substituted replacement list is scanned under the hide set [name] *)
-    destruct (sscan_all stb HSobj2 d (hset_w (tw t) (hsadd [tt t] (subst_out ap body))) [tt t]) as (n1 & Hn1).
+    destruct (sscan_all stb HSobj2 d (hset_w (tw t) (hsadd [tt t] (subst_out (fun a => a) ap body))) [tt t]) as (n1 & Hn1).
     { apply call_all_hs; [assumption|]. rewrite Forall_forall. intros ha Hha. unfold hargs in Hha. apply in_map_iff in Hha.
       destruct Hha as (x & <- & Hx). intros y Hy. apply in_map_iff in Hy. destruct Hy as (z & <- & Hz).
       rewrite Forall_forall in Hargs. pose proof (Hargs x Hx) as Hxa. rewrite forallb_forall in Hxa. specialize (Hxa z Hz).
@@ -655,7 +683,7 @@ Proof.
     cbn [map]. rewrite !map_app, map_flat_more. cbn [map app plus].
     replace ((map hl0 a ++ hflat_more (hmap_more more) ++ [hl0 rp]) ++ ys)
       with (map hl0 a ++ hflat_more (hmap_more more) ++ hl0 rp :: ys) by (now rewrite <- !app_assoc).
-    rewrite (X_call stb (n1 + f) (hl0 t) (hl0 lp) (map hl0 a) (hmap_more more) (hl0 rp) ys ps body ap (subst_out ap body)).
+    rewrite (X_call stb (n1 + f) (hl0 t) (hl0 lp) (map hl0 a) (hmap_more more) (hl0 rp) ys ps body ap (subst_out (fun a => a) ap body)).
     + cbn [hl0 lift btok_of hw ht]. now apply Hn1.
     + now apply okd_okh0.
     + exact Hid.
@@ -677,7 +705,7 @@ Proof.
       rewrite map_snd_hmap. change (map hl0 a :: map (map hl0) (map snd more)) with hargs.
       replace (Nat.eqb (List.length hargs) (List.length (p0 :: ps'))) with true; [reflexivity|].
       symmetry. apply Nat.eqb_eq. unfold hargs, al. rewrite map_length. cbn [List.length]. rewrite map_length. exact (eq_sym Hlps).
-    + unfold subst_all. rewrite (subst_funlike (expandS stb (n1 + f)) ap body []).
+    + unfold subst_all. rewrite (subst_funlike (expandS stb (n1 + f)) (fun a => a) ap body []).
       * cbn [app]. rewrite subst_out_no_pm; [reflexivity| |].
         -- intros x Hx. unfold body in Hx. apply in_map_iff in Hx. destruct Hx as (z & <- & Hz). cbn [btok_of bt]. now apply Hne.
         -- intros ha Hha x Hx. unfold ap in Hha.
@@ -737,7 +765,7 @@ Definition same_tok (x y : tok) : Prop := tk x = tk y /\ tt x = tt y.
 Lemma sim_sm name ps al b b' :
   Forall2 same_tok b' b -> List.length al = List.length ps ->
   (forall t, In t b -> (is_id t || negb (mem (tt t) ps)) = true) ->
-  Forall2 (sim [name]) (sm ps al b') (hsadd [name] (subst_out (combine ps (map (map hl0) al)) (map btok_of b))).
+  Forall2 (sim [name]) (sm ps al b') (hsadd [name] (subst_out (fun a => a) (combine ps (map (map hl0) al)) (map btok_of b))).
 Proof.
   intros Hsame Hlen Hpar. induction Hsame as [|x' x b' b (Hk & Ht) Hr IH]; [constructor|].
   cbn [sm flat_map map subst_out]. fold (sm ps al b').
@@ -768,9 +796,10 @@ Lemma item_corr lead cat_fix str_white resub_fix va_fix d i :
 Proof.
   intros [Hokd Hi]. destruct i as [l|t lp a more rp]; cbn [item_out sitem_out].
   - rewrite EI_plain by assumption.
-    apply (corr2 (S d) [None] []); [intros s; reflexivity| |apply sim_hl0].
-    apply (forallb_impl (src_tok fs) (okt2 tb)); [|assumption].
-    intros x Hx. unfold src_tok in Hx. apply andb_true_iff in Hx. destruct Hx as [Hf _]. now apply okf_okt2.
+    apply (corr2 (S d) [None] []); [intros s; reflexivity| | |apply sim_hl0].
+    + apply (forallb_impl (src_tok fs) (okt2 tb)); [|assumption].
+      intros x Hx. unfold src_tok in Hx. apply andb_true_iff in Hx. destruct Hx as [Hf _]. now apply okf_okt2.
+    + apply (forallb_impl okd tx); [apply okd_tx|exact Hokd].
   - destruct Hi as (Hid & Hdef & Hlp & Hrp & Ha & Hmore & n0 & ps & b & Hfl & Hlps).
     destruct (fun_facts n0 ps b (flookup_In _ _ _ Hfl)) as (Hb & Hps & Hnd & Hva & Hno & Hpar & Hne).
     pose proof (flookup_name _ _ _ Hfl) as Hname. cbn [fname] in Hname. subst n0.
@@ -787,6 +816,11 @@ Proof.
     + apply okt2_set_w_hd. apply sm_okt2.
       * apply okt2_set_w_hd. apply (forallb_impl (okf fs) (okt2 tb)); [apply okf_okt2|assumption].
       * rewrite Forall_forall in Hargs |- *. intros x Hxin. apply (forallb_impl (arg_tok fs) (okt2 tb)); [apply arg_okt2|now apply Hargs].
+    + apply tx_set_w_hd. apply sm_tx.
+      * apply tx_set_w_hd. apply (forallb_impl (okf fs) tx); [|assumption].
+        intros x Hx. unfold okf in Hx. apply andb_true_iff in Hx. destruct Hx as [Hx _]. now apply okd_tx.
+      * rewrite Forall_forall in Hargs |- *. intros x Hxin. apply (forallb_impl (arg_tok fs) tx); [|now apply Hargs].
+        intros z Hz. destruct (arg_tok_facts z Hz) as (Hoz & _ & _). now apply okd_tx.
     + apply sim_set_w. apply sim_sm; [apply same_set_w|assumption|assumption].
 Qed.
 
